@@ -468,5 +468,5 @@ func TestZeroDist(t *testing.T) {
 		}
 	}
 	vk.Enumerate(t, "zero-dist-exh", len(cases), func(i int) zdCase { return cases[i] }, checkZeroDist)
-	vk.Run(t, "zero-dist", vk.Opts{Quick: 4000, Thorough: 100000}, drawZeroDist, checkZeroDist)
+	vk.Run(t, "zero-dist", vk.Opts{Quick: 4000, Thorough: 40000}, drawZeroDist, checkZeroDist)
 }
